@@ -20,6 +20,7 @@
 import copy
 import itertools
 import sys
+import time as _time
 
 BIG = [2**31, -(2**31), 10**9, 2**53 - 1, 2**53 + 1, 2**60, 10**18, 2**44 + 1, -(10**12), 65537]
 
@@ -256,7 +257,11 @@ def judge_big(spec, info):
     state = {"fallbacks": 7}
     # constructed probes first (they are the ones that may need the fallback), then the neighbours
     probes = probes[:1] + probes[len(probes) - len(spec.get("probes", [])):] + probes[1:len(probes) - len(spec.get("probes", []))]
+    t_probe_end = _time.time() + 12
     for p in probes:
+        if _time.time() > t_probe_end:
+            stats["probes_skipped"] = stats.get("probes_skipped", 0) + 1
+            continue
         want = is_solution(spec, p)
         got = decide(F, assumption(info, p), state)
         if got is None:
@@ -272,7 +277,13 @@ def judge_big(spec, info):
         if state.get(k):
             stats[k] = state[k]
     # slices: pin all but the free variables, enumerate, project
+    import time as _t
+
+    t_end = _t.time() + 6
     for free in spec.get("slices", []):
+        if (len(cnf) > 15000 and len(free) > 1) or _t.time() > t_end:
+            stats["slices_skipped"] = stats.get("slices_skipped", 0) + 1
+            continue
         pin = []
         for i, ((_lb, _ub, _n, _b, bv), x) in enumerate(zip(info["vars"], spec["base"])):
             if i not in free:
@@ -373,9 +384,9 @@ def big_circuit(rng, n):
             "probe_limit": 90}
 
 
-def big_sum(rng):
-    k = rng.choice([3, 4, 5, 6, 8])
-    width = rng.choice([6, 9, 17, 17, 33, 65] if k <= 4 else [4, 6, 9, 17])
+def big_sum(rng, k=None):
+    k = k or rng.choice([3, 4, 5, 6, 8])
+    width = rng.choice([6, 9, 17, 17, 33, 65] if k <= 4 else ([4, 6, 9, 17] if k <= 8 else [1, 2]))
     vs = []
     for i in range(k):
         lo = rng.randint(-20, 20)
@@ -391,9 +402,9 @@ def big_sum(rng):
     return {"family": "S-sum", "vars": vs, "cons": [[kind, idx, t]], "base": pt, "slices": _slices(rng, k, 2)}
 
 
-def big_lin(rng):
-    k = rng.choice([3, 4, 5, 6, 7, 8])
-    width = rng.choice([4, 6, 9, 17, 33] if k <= 4 else [3, 4, 6])
+def big_lin(rng, k=None):
+    k = k or rng.choice([3, 4, 5, 6, 7, 8])
+    width = rng.choice([4, 6, 9, 17, 33] if k <= 4 else ([3, 4, 6] if k <= 8 else [2]))
     vs = []
     for i in range(k):
         lo = rng.randint(-9, 9)
@@ -409,7 +420,10 @@ def big_lin(rng):
     def side(ts):
         e = ts[0]
         for t in ts[1:]:
-            e = [rng.choice(["add", "add", "sub"]), e, t]
+            op = rng.choice(["add", "add", "sub"])
+            if op == "sub" and t[0] == "var" and e[0] != "var":
+                t = ["mul", 1, t]          # Expr - IntVar is refused by the operators (TypeError)
+            e = [op, e, t]
         return e
 
     lhs = side(terms[:cut])
@@ -476,14 +490,28 @@ def big_specs(rng, thorough):
     out = [big_alldiff(rng, n) for n in ([17, 18, 20, 33] + ([65, 40] if thorough else []))]
     out += [big_alldiff(rng, rng.choice([17, 19, 24])) for _ in range(4 if thorough else 1)]
     out += [big_circuit(rng, n) for n in ([9, 17] + ([11, 18, 20] if thorough else []))]
-    out += [big_sum(rng) for _ in range(12 if thorough else 5)]
-    out += [big_lin(rng) for _ in range(12 if thorough else 5)]
+    out += [big_sum(rng) for _ in range(12 if thorough else 4)] + [big_sum(rng, k) for k in ([17] + ([33, 20] if thorough else []))]
+    out += [big_lin(rng) for _ in range(12 if thorough else 4)] + [big_lin(rng, k) for k in ([17] + ([20] if thorough else []))]
     out += [big_dom(rng, [17, 33, 65]) for _ in range(8 if thorough else 3)]
     out += [big_dom(rng, [129, 257]) for _ in range(3 if thorough else 1)]
     if thorough:
         out += [big_dom(rng, [1025]) for _ in range(1)]
     out += [big_sched(rng) for _ in range(8 if thorough else 4)]
     return out
+
+
+def many_constraints(rng):
+    """17..40 small constraints over a handful of variables (box small: the ordinary model-counting oracle applies)"""
+    C = base()
+    nv = rng.choice([4, 5, 6])
+    vs = [[f"q{i}", lo, lo + rng.choice([1, 1, 2])] for i, lo in enumerate(rng.randint(-2, 2) for _ in range(nv))]
+    pt = [rng.randint(lo, hi) for _, lo, hi in vs]
+    cons = []
+    while len(cons) < rng.choice([17, 20, 33, 40]):
+        c = C.rand_constraint(rng, nv, rng.choice(["cmp", "cmp", "sum_le", "sum_ge", "sum_eq", "all_different", "no_overlap"]))
+        if (C.holds(c, pt) or rng.random() < 0.02) and not isinstance(C.build_model({"vars": vs, "cons": [c]}), tuple):
+            cons.append(c)
+    return {"family": "S-many-constraints", "vars": vs, "cons": cons}
 
 
 # ================================================================ M: magnitudes on small structures
@@ -969,4 +997,19 @@ def directed(rng, seen, want=3, tries=600):
                 for x in evs:
                     seen[x] = seen.get(x, 0) + 1
                 need -= 1
+        while need > 0 and e in CONSTRUCTED:
+            s = CONSTRUCTED[e](rng)
+            s["family"] = "H"
+            out.append(s)
+            for x in spec_events(s):
+                seen[x] = seen.get(x, 0) + 1
+            need -= 1
     return out
+
+
+CONSTRUCTED = {
+    "alldiff-pigeonhole": lambda rng: (lambda k, lo: {"vars": [[f"p{i}", lo, lo + k - 2] for i in range(k)], "cons": [["all_different", list(range(k))]]})(rng.choice([2, 3, 4]), rng.randint(-2, 2)),
+    "circuit-n:0": lambda rng: {"vars": [["a", 0, rng.randint(0, 2)], ["b", -1, 1]], "cons": [["circuit", []], ["cmp", ["var", 0], ["var", 1], rng.random() < 0.5]]},
+    "circuit-n:1": lambda rng: {"vars": [["a", rng.choice([0, -1]), rng.randint(0, 2)]], "cons": [["circuit", [0]]]},
+    "sum-aux-empty": lambda rng: {"vars": [[f"e{i}", 0, 2] for i in range(3)], "cons": [[rng.choice(["sum_le"]), [0, 1, 2], rng.choice([-1, -2])]]},
+}
